@@ -79,9 +79,12 @@ def real_tree_run(ctx, spec, args):
     failed = False
     expect_exit = 0
     state = dict(pre)
-    for v, rp in zip(visit, real):
+    order = list(dict.fromkeys(real))          # each real file once, at its first occurrence (what "visited" means for C15)
+    done = 0
+    for rp in order:
         if failed:
             break
+        done += 1
         cur = state.get(rp)
         if cur is None:
             failed = True
@@ -133,9 +136,8 @@ def real_tree_run(ctx, spec, args):
         problems.append('no file failed but exit status is %r (%s)' % (r['exit'], r['exc']))
     if failed:
         # files not yet visited untouched: every real file after the failing one keeps its bytes
-        idx = len(reached)
-        for rp in real[idx:]:
-            if rp not in real[:idx] and pre.get(rp) != post.get(rp):
+        for rp in order[done:]:
+            if pre.get(rp) != post.get(rp):
                 problems.append('%s: visited after the failing file but modified' % rp)
     if problems:
         return {'input': {'spec': [(a, b, c.decode('latin-1') if isinstance(c, bytes) else c) for a, b, c in spec], 'args': args},
